@@ -5,6 +5,7 @@ import LoomVerif.Props.C20
 
 open LoomVerif
 
+#print axioms SelfWakeStage_spelled_out
 #print axioms BlockOn.modes_spelled_out
 #print axioms BlockOn.repolls_only_after_wake
 #print axioms BlockOn.spurious_repoll_once
@@ -25,3 +26,4 @@ open LoomVerif
 #print axioms BlockOn.example_deadlock
 #print axioms BlockOn.example_poll_once
 #print axioms BlockOn.example_held_clone
+#print axioms BlockOn.example_self_wake
